@@ -269,6 +269,296 @@ theorem splitParam_first_eq (k v : List Char) (hk : ∀ c ∈ k, c ≠ '=' ∧ c
     simp [this]
   rw [this]
 
+/-! ## A whole dictionary of parameters; the `Profile.load` route -/
+
+theorem lookup_setParam_ne (st : PState) (n m : String) (v : PVal) (h : m ≠ n) :
+    (setParam st n v).lookup m = st.lookup m := by
+  induction st with
+  | nil => rfl
+  | cons e es ih =>
+    unfold setParam at ih ⊢
+    simp only [List.map_cons]
+    by_cases he : e.1 == n
+    · have hen : e.1 = n := by simpa using he
+      have hm : (m == n) = false := by simpa using h
+      have hm' : (m == e.1) = false := by rw [hen]; exact hm
+      simp only [he, if_true]
+      rw [List.lookup_cons, List.lookup_cons, hm, hm']
+      exact ih
+    · have he' : (e.1 == n) = false := by simpa using he
+      simp only [he', Bool.false_eq_true, if_false]
+      rw [List.lookup_cons, List.lookup_cons]
+      cases m == e.1
+      · exact ih
+      · rfl
+
+/-- updating other parameters leaves a parameter alone -/
+theorem update_lookup_other (kw : List (String × PyVal)) (m : String) (hm : ∀ e ∈ kw, e.1 ≠ m) :
+    ∀ (st st' : PState) (ps : List (String × PVal)), update st kw = .ok (st', ps) → st'.lookup m = st.lookup m := by
+  induction kw with
+  | nil =>
+    intro st st' ps h
+    simp only [update] at h
+    cases h; rfl
+  | cons e rest ih =>
+    obtain ⟨k, w⟩ := e
+    have hk : k ≠ m := hm (k, w) (by simp)
+    have hrest : ∀ e ∈ rest, e.1 ≠ m := fun e he => hm e (by simp [he])
+    intro st st' ps h
+    rw [update] at h
+    split at h
+    · exact ih hrest st st' ps h
+    · split at h
+      · exact ih hrest st st' ps h
+      · split at h
+        · cases h
+        · rename_i cur _ nv _
+          split at h
+          · rename_i st2 ps2 h2
+            cases h
+            rw [ih hrest _ _ _ h2]
+            exact lookup_setParam_ne st k m nv (Ne.symm hk)
+          · cases h
+
+/-- **update_dict_takes_value** in an update with a whole dictionary (distinct names) that
+succeeds, every known parameter given a well-formed value ends up with exactly that value in the
+parameter's type - whatever else is in the dictionary and in whatever order. -/
+theorem update_dict_takes_value (kw : List (String × PyVal)) (n : String) (v : PyVal) (cur nv : PVal)
+    (hnd : (kw.map (·.1)).Nodup) (hmem : (n, v) ∈ kw) (hv : v ≠ .none) (hn : n ≠ "cn_solution")
+    (hc : ∀ cur', sameType cur cur' = true → convert cur' v = some nv) (hsame : sameType cur nv = true) :
+    ∀ (st st' : PState) (ps : List (String × PVal)), st.lookup n = some cur →
+      update st kw = .ok (st', ps) → st'.lookup n = some nv := by
+  induction kw with
+  | nil => simp at hmem
+  | cons e rest ih =>
+    obtain ⟨k, w⟩ := e
+    simp only [List.map_cons, List.nodup_cons] at hnd
+    intro st st' ps hcur h
+    by_cases hkn : k = n
+    · subst hkn
+      have hw : w = v := by
+        rcases List.mem_cons.mp hmem with h1 | h1
+        · cases h1; rfl
+        · exact absurd (List.mem_map.mpr ⟨(k, v), h1, rfl⟩) hnd.1
+      subst hw
+      have hrest : ∀ e ∈ rest, e.1 ≠ k := by
+        intro e he hek
+        exact hnd.1 (List.mem_map.mpr ⟨e, he, hek⟩)
+      rw [update] at h
+      have hskip : (w == PyVal.none || k == "cn_solution") = false := by simp [hv, hn]
+      have hconv : convert cur w = some nv := hc cur (by cases cur <;> simp_all [sameType])
+      simp only [hskip, Bool.false_eq_true, if_false, hcur, hconv] at h
+      split at h
+      · rename_i st2 ps2 h2
+        cases h
+        rw [update_lookup_other rest k hrest _ _ _ h2]
+        exact lookup_setParam st k nv (by simp [hcur])
+      · cases h
+    · have hmem' : (n, v) ∈ rest := by
+        rcases List.mem_cons.mp hmem with h1 | h1
+        · cases h1; exact absurd rfl hkn
+        · exact h1
+      rw [update] at h
+      split at h
+      · exact ih hnd.2 hmem' st st' ps hcur h
+      · split at h
+        · exact ih hnd.2 hmem' st st' ps hcur h
+        · split at h
+          · cases h
+          · rename_i cur2 _ nv2 _
+            split at h
+            · rename_i st2 ps2 h2
+              cases h
+              refine ih hnd.2 hmem' _ _ _ ?_ h2
+              rw [lookup_setParam_ne st k n nv2 (Ne.symm hkn)]
+              exact hcur
+            · cases h
+
+theorem lookup_append_first {α : Type} (l1 l2 : List (String × α)) (k : String) :
+    (l1 ++ l2).lookup k = match l1.lookup k with | some v => some v | none => l2.lookup k := by
+  induction l1 with
+  | nil => rfl
+  | cons e es ih =>
+    obtain ⟨a, b⟩ := e
+    simp only [List.cons_append, List.lookup_cons]
+    cases k == a
+    · exact ih
+    · rfl
+
+/-- the entry `dict(options, **params)` has for a key of the options section -/
+def mergeEntry (params : List (String × PyVal)) (e : String × PyVal) : String × PyVal :=
+  match params.lookup e.1 with | some v => (e.1, v) | none => e
+
+theorem mergeEntry_fst (params : List (String × PyVal)) (e : String × PyVal) : (mergeEntry params e).1 = e.1 := by
+  unfold mergeEntry; cases params.lookup e.1 <;> rfl
+
+theorem mergeOptions_eq (opts params : List (String × PyVal)) :
+    mergeOptions opts params = opts.map (mergeEntry params) ++ params.filter fun e => !(opts.any fun o => o.1 == e.1) := rfl
+
+theorem lookup_filter_drop (e : String × PyVal) (es ps : List (String × PyVal)) (n : String) (hk : (n == e.1) = false) :
+    (ps.filter fun p => !((e :: es).any fun o => o.1 == p.1)).lookup n =
+    (ps.filter fun p => !(es.any fun o => o.1 == p.1)).lookup n := by
+  induction ps with
+  | nil => rfl
+  | cons p ps ihp =>
+    obtain ⟨pk, pv⟩ := p
+    simp only [List.filter_cons, List.any_cons]
+    by_cases hpe : e.1 == pk
+    · have : pk = e.1 := (beq_iff_eq.mp hpe).symm
+      have hnp : (n == pk) = false := by rw [this]; exact hk
+      simp only [hpe, Bool.true_or, Bool.not_true, Bool.false_eq_true, if_false]
+      split
+      · simp only [List.lookup_cons, hnp]; exact ihp
+      · exact ihp
+    · have hpe' : (e.1 == pk) = false := by simpa using hpe
+      simp only [hpe', Bool.false_or]
+      split
+      · simp only [List.lookup_cons]
+        cases n == pk
+        · exact ihp
+        · rfl
+      · exact ihp
+
+/-- **load_explicit_wins** an explicit parameter given to `Profile.load` overrides the options
+section of the file: the merged dictionary carries the explicit value - also when it is `False`,
+`0` or `0.0`. -/
+theorem load_explicit_wins (opts params : List (String × PyVal)) (n : String) (v : PyVal)
+    (h : params.lookup n = some v) : (mergeOptions opts params).lookup n = some v := by
+  rw [mergeOptions_eq, lookup_append_first]
+  induction opts with
+  | nil =>
+    have : (params.filter fun e => !(([] : List (String × PyVal)).any fun o => o.1 == e.1)) = params :=
+      List.filter_eq_self.mpr (by simp)
+    rw [this]
+    simpa using h
+  | cons e es ih =>
+    obtain ⟨ek, ev⟩ := e
+    have hme : mergeEntry params (ek, ev) = (ek, (mergeEntry params (ek, ev)).2) :=
+      Prod.ext (mergeEntry_fst params (ek, ev)) rfl
+    rw [List.map_cons, hme]
+    simp only [List.lookup_cons]
+    by_cases hk : n == ek
+    · have hke : n = ek := by simpa using hk
+      subst hke
+      simp only [hk]
+      unfold mergeEntry
+      simp only [h]
+    · have hk' : (n == ek) = false := by simpa using hk
+      simp only [hk']
+      rw [lookup_filter_drop (ek, ev) es params n hk']
+      exact ih
+
+theorem lookup_filter_none (opts params : List (String × PyVal)) (n : String) (h : params.lookup n = none) :
+    (params.filter fun e => !(opts.any fun o => o.1 == e.1)).lookup n = none := by
+  induction params with
+  | nil => rfl
+  | cons p ps ih =>
+    obtain ⟨pk, pv⟩ := p
+    simp only [List.lookup_cons] at h
+    cases hnp : n == pk
+    · rw [hnp] at h
+      simp only [List.filter_cons]
+      split
+      · simp only [List.lookup_cons, hnp]; exact ih h
+      · exact ih h
+    · rw [hnp] at h; cases h
+
+/-- **load_options_kept** a parameter the caller does not pass keeps the value of the options section. -/
+theorem load_options_kept (opts params : List (String × PyVal)) (n : String)
+    (h : params.lookup n = none) : (mergeOptions opts params).lookup n = opts.lookup n := by
+  rw [mergeOptions_eq, lookup_append_first, lookup_filter_none opts params n h]
+  induction opts with
+  | nil => rfl
+  | cons e es ih =>
+    obtain ⟨ek, ev⟩ := e
+    have hme : mergeEntry params (ek, ev) = (ek, (mergeEntry params (ek, ev)).2) :=
+      Prod.ext (mergeEntry_fst params (ek, ev)) rfl
+    rw [List.map_cons, hme]
+    simp only [List.lookup_cons]
+    by_cases hk : n == ek
+    · have hke : n = ek := by simpa using hk
+      subst hke
+      simp only [hk]
+      unfold mergeEntry
+      simp only [h]
+    · have hk' : (n == ek) = false := by simpa using hk
+      simp only [hk']
+      exact ih
+
+theorem mem_of_lookup {α : Type} (l : List (String × α)) (k : String) (v : α) (h : l.lookup k = some v) : (k, v) ∈ l := by
+  induction l with
+  | nil => cases h
+  | cons e es ih =>
+    obtain ⟨a, b⟩ := e
+    simp only [List.lookup_cons] at h
+    cases hk : k == a
+    · rw [hk] at h; exact List.mem_cons_of_mem _ (ih h)
+    · rw [hk] at h
+      have : k = a := by simpa using hk
+      cases h; subst this; exact List.mem_cons_self
+
+theorem mergeOptions_keys_nodup (opts params : List (String × PyVal))
+    (ho : (opts.map (·.1)).Nodup) (hp : (params.map (·.1)).Nodup) :
+    ((mergeOptions opts params).map (·.1)).Nodup := by
+  rw [mergeOptions_eq, List.map_append, List.nodup_append]
+  refine ⟨?_, ?_, ?_⟩
+  · have : (opts.map (mergeEntry params)).map (·.1) = opts.map (·.1) := by
+      rw [List.map_map]; apply List.map_congr_left; intro e _; exact mergeEntry_fst params e
+    rw [this]; exact ho
+  · exact (List.filter_sublist.map _).nodup hp
+  · intro a ha b hb hab
+    subst hab
+    obtain ⟨e, he, rfl⟩ := List.mem_map.mp ha
+    obtain ⟨o, ho', rfl⟩ := List.mem_map.mp he
+    obtain ⟨p, hp', hpe⟩ := List.mem_map.mp hb
+    have hpf := (List.mem_filter.mp hp').2
+    rw [mergeEntry_fst] at hpe
+    have : (opts.any fun o' => o'.1 == p.1) = true :=
+      List.any_eq_true.mpr ⟨o, ho', by simp [hpe]⟩
+    simp [this] at hpf
+
+theorem setDefault_keys_nodup (d : List (String × PyVal)) (k : String) (v : PyVal) (h : (d.map (·.1)).Nodup) :
+    ((setDefault d k v).map (·.1)).Nodup := by
+  unfold setDefault
+  split
+  · exact h
+  · rename_i hn
+    rw [List.map_append, List.nodup_append]
+    refine ⟨h, by simp, ?_⟩
+    intro a ha b hb hab
+    simp only [List.map_cons, List.map_nil, List.mem_singleton] at hb
+    subst hab hb
+    obtain ⟨e, he, hek⟩ := List.mem_map.mp ha
+    exact hn (List.any_eq_true.mpr ⟨e, he, by simp [hek]⟩)
+
+theorem setDefault_lookup (d : List (String × PyVal)) (k : String) (v x : PyVal) (n : String)
+    (h : d.lookup n = some x) : (setDefault d k v).lookup n = some x := by
+  unfold setDefault
+  split
+  · exact h
+  · rw [lookup_append_first, h]
+
+/-- **load_param_takes_value** the `Profile.load` route end to end: whatever the options section
+of the profile file says, a known parameter passed explicitly with a well-formed value (`False`,
+`0`, `0.0` included) has exactly that value, in the parameter's type, in the loaded profile. -/
+theorem load_param_takes_value (opts params : List (String × PyVal)) (neutral : PyVal) (n : String) (v : PyVal)
+    (cur nv : PVal) (ho : (opts.map (·.1)).Nodup) (hp : (params.map (·.1)).Nodup)
+    (hgiven : params.lookup n = some v) (hv : v ≠ .none) (hn : n ≠ "cn_solution")
+    (hcur : initState.lookup n = some cur)
+    (hc : ∀ cur', sameType cur cur' = true → convert cur' v = some nv) (hsame : sameType cur nv = true)
+    (st' : PState) (ps : List (String × PVal))
+    (hok : update initState (loadOptions opts params neutral) = .ok (st', ps)) : st'.lookup n = some nv := by
+  have hl : (loadOptions opts params neutral).lookup n = some v :=
+    setDefault_lookup _ _ _ _ _ (load_explicit_wins opts params n v hgiven)
+  have hnd : ((loadOptions opts params neutral).map (·.1)).Nodup :=
+    setDefault_keys_nodup _ _ _ (mergeOptions_keys_nodup opts params ho hp)
+  exact update_dict_takes_value _ n v cur nv hnd (mem_of_lookup _ _ _ hl) hv hn hc hsame initState st' ps hcur hok
+
+example : mergeOptions [("phase", .bool true), ("gap", .float (1/10))] [("phase", .bool false), ("min_mapq", .int 0)] =
+    [("phase", .bool false), ("gap", .float (1/10)), ("min_mapq", .int 0)] := by decide +kernel
+example : (update initState (loadOptions [("phase", .bool true)] [("phase", .bool false)] (.float 1000))).toOption.map
+    (fun r => r.1.lookup "phase") = some (some (.bool false)) := by decide +kernel
+
 /-! ### Non-vacuity -/
 example : (initState.lookup "phase") = some (.bool true) := by decide +kernel
 example : update initState [("phase", .str "FALSE"), ("gap", .str "1e-1"), ("nope", .str "x")] =
